@@ -422,6 +422,25 @@ def run(ctx):
     rows = correspond_pairs(ctx, impl, model, "exec_sync", triples, nontrivial=lambda rd, o: True,
                             classify=lambda rd, i, m: None if cls_of_case.get(rd, "-") == "-" else cls_of_case[rd])
     oracle_ref(ctx, model, triples, rows, ref=ref)
+    # the decidable hypotheses of C26_eq_reference_decidable, evaluated by the extracted predicates on every distinct
+    # (schema, document) of this run: how much of the tested population the theorem speaks about
+    sd_of = {}
+    for t in triples:
+        sd_of.setdefault(" ".join(t[1].split(" ")[:2]), t[1])
+    hyps = run_family(model, "exec_hyps", list(sd_of.values()))
+    hfam = ctx.cov["families"].setdefault("exec_hyps", {"schema_document_pairs": 0, "outside_known_covariant": 0,
+                                                        "theorem_hypotheses_hold": 0, "fail_samples": []})
+    for mc, h in zip(sd_of.values(), hyps):
+        if h.startswith("model-"):
+            raise MachineryError(f"exec_hyps failed: {h}")
+        hfam["schema_document_pairs"] += 1
+        if "covariant=1" in h:
+            continue
+        hfam["outside_known_covariant"] += 1
+        if h.startswith("wf=1 alias=1 acyclic=1"):
+            hfam["theorem_hypotheses_hold"] += 1
+        elif len(hfam["fail_samples"]) < 5:
+            hfam["fail_samples"].append(h)
     fam = ctx.cov["families"]["exec_sync"]
     fam.update(stats)
     fam["skipped_invalid_cases"] = skipped
@@ -445,8 +464,9 @@ def run(ctx):
         "the schema reaches the model as dumped by the real builder without built-in definitions; the five built-in scalars are added by the glue",
         "error messages are not compared: an error is (class, path) with class = carries the resolver's own message / suspected validation bug / other",
         "the harness's resolvers identify an object by (id, claimed type name) and answer from the table; a missing entry is a resolver error",
-        "equality of the model with the reference executor (C26_eq_reference) is not proved in Coq: it is checked on every generated case (implementation = model and implementation = reference, outside the known class)",
-        "the theorems speak about requests whose outcome is a response: that the fuel computed by ex_fuel_for always suffices is not proved (an out-of-fuel result of the model runner is a machinery error; none occurred)",
+        "equality of the model with the reference executor is proved (C26_eq_reference) for schemas with sch_exec_wf, documents outside known_covariant, without fragment cycles (rd_acyclic) and with one field name per response key in every grouped field set (rd_mergeable; decidable sufficient condition rd_alias_consistent); the decidable hypotheses are evaluated by the extracted predicates on every generated (schema, document) (families.exec_hyps), and implementation = reference is still checked on every case",
+        "the typed document is td_build's (valid documents); that rd_mergeable follows from validation's FieldsInSetCanMerge is not proved",
+        "fuel: C26_fuel_enough proves that the model never reports out-of-fuel under rd_acyclic (the reference likewise, inside C26_eq_reference)",
     ]
     return ctx.finish(props)
 
